@@ -15,7 +15,8 @@ is recorded in the trace of the wrapped http.ResponseWriter (Model/Writer makes 
 def call_BeforeFunc (f : FuncVal) (w : responseWriter) : responseWriter :=
   { w with ResponseWriter := w.ResponseWriter.record ("hook", [Arg.int f]) }
 `,
-		skip: map[string]string{},
+		skip:      map[string]string{},
+		callFuncs: map[string]bool{"BeforeFunc": true},
 		// a field of a type outside the subset (a timestamp, a counter object …) is kept as `Opaque`: the methods that do not
 		// touch it stay translated
 		opaqueFields: true,
